@@ -325,6 +325,23 @@ func (lr *lifeRun) execOp(t *Toks) error {
 		lc.cond = sync.NewCond(&lc.mu)
 		lr.clients = append(lr.clients, lc)
 		go lc.reader()
+	case "accepterr":
+		// descriptor exhaustion at accept time: with the limit lowered, a client connects
+		// (the kernel completes the handshake, accept(2) fails with EMFILE); the limit is
+		// restored a moment later.  The client becomes the next connection of the scenario.
+		if _, ok := lr.wp.ask("fdlimit 1", "fdlimit", 3*time.Second); !ok {
+			return fmt.Errorf("fdlimit not acknowledged")
+		}
+		c, err := net.DialTimeout("tcp", lr.wp.addr, 3*time.Second)
+		time.Sleep(150 * time.Millisecond)
+		lr.wp.ask("fdlimit 0", "fdlimit", 3*time.Second)
+		if err != nil {
+			return fmt.Errorf("connect refused: %v", err)
+		}
+		lc := &lifeClient{raw: c, rw: c}
+		lc.cond = sync.NewCond(&lc.mu)
+		lr.clients = append(lr.clients, lc)
+		go lc.reader()
 	case "send":
 		ci := t.Int()
 		n := t.Int()
@@ -411,8 +428,6 @@ func (lr *lifeRun) execOp(t *Toks) error {
 		lr.wp.send("release " + t.Next())
 	case "holdonclose":
 		lr.wp.send("holdonclose " + t.Next())
-	case "accepterr":
-		// not controllable from outside the process
 	}
 	return nil
 }
